@@ -132,6 +132,21 @@ Definition cp_to_unfolded_from (v : res (list nat * nat)) (w : option (tensor F)
 Definition cp_to_unfolded (w : option (tensor F)) (fs : list (tensor F)) (mode : nat) : res (tensor F) :=
   cp_to_unfolded_from (validate_cp w fs) w fs mode.
 
+(* cp_to_unfolded(cp_tensor, mode) with a NEGATIVE mode = -k, as the code behaves: an order-1 tensor accepts -1 explicitly; otherwise
+   factors[mode] is Python's negative indexing (factor N - k, IndexError if k > N) but khatri_rao(factors, skip_matrix=mode) compares
+   the negative number with the positions 0..N-1 and skips NOTHING: the result has prod of ALL sizes columns *)
+Definition cp_to_unfolded_from_neg (v : res (list nat * nat)) (w : option (tensor F)) (fs : list (tensor F)) (k : nat) : res (tensor F) :=
+  rbind v (fun sr =>
+    if length (fst sr) =? 1 then
+      (if k =? 1 then rbind (cp_to_tensor_from v w fs None) (fun t => reshape_spec [None; Some 1] t) else Err)
+    else let fs := as_matrices fs in
+    if negb (all_2d fs) then Err
+    else if (1 <=? k) && (k <=? length fs) then
+      rbind (khatri_rao fs) (fun K => mdot (opt_scale w (nth (length fs - k) fs (mk [] []))) (mT K))
+    else Err).
+Definition cp_to_unfolded_neg (w : option (tensor F)) (fs : list (tensor F)) (k : nat) : res (tensor F) :=
+  cp_to_unfolded_from_neg (validate_cp w fs) w fs k.
+
 Definition cp_to_vec_from v (w : option (tensor F)) (fs : list (tensor F)) : res (tensor F) :=
   rbind (cp_to_tensor_from v w fs None) tensor_to_vec.
 Definition cp_to_vec (w : option (tensor F)) (fs : list (tensor F)) : res (tensor F) := cp_to_vec_from (validate_cp w fs) w fs.
@@ -397,6 +412,15 @@ Definition cp_to_unfolded_from_einsum (v : res (list nat * nat)) (w : option (te
     else if mode <? length fs then
       rbind (kr_einsum (remove_nth mode fs) None) (fun K =>
         mdot (opt_scale w (nth mode fs (mk [] []))) (mT K))
+    else Err).
+Definition cp_to_unfolded_from_neg_einsum (v : res (list nat * nat)) (w : option (tensor F)) (fs : list (tensor F)) (k : nat) : res (tensor F) :=
+  rbind v (fun sr =>
+    if length (fst sr) =? 1 then
+      (if k =? 1 then rbind (cp_to_tensor_from_einsum v w fs None) (fun t => reshape_spec [None; Some 1] t) else Err)
+    else let fs := as_matrices fs in
+    if negb (all_2d fs) then Err
+    else if (1 <=? k) && (k <=? length fs) then
+      rbind (kr_einsum fs None) (fun K => mdot (opt_scale w (nth (length fs - k) fs (mk [] []))) (mT K))
     else Err).
 Definition cp_to_vec_from_einsum v (w : option (tensor F)) (fs : list (tensor F)) : res (tensor F) :=
   rbind (cp_to_tensor_from_einsum v w fs None) tensor_to_vec.
